@@ -1,5 +1,6 @@
 import FractopoModel.Model.Validation
 import FractopoModel.Lemmas.Underlap
+import FractopoModel.Generated.ValidationPass
 /-!
 # C13 — validation is pure and repeatable (history-independence of the orchestration)
 
@@ -97,6 +98,66 @@ theorem C13_history_irrelevant (O : Oracle G) (history : List (Cfg × Bool × Bo
 theorem C13_rerun (O : Oracle G) (cfg : Cfg) (a e : Bool) (frame : List G) (glob : String) :
     (run O cfg a e frame (run O cfg a e frame glob).2).1 = (run O cfg a e frame glob).1 :=
   C13_global_irrelevant O cfg a e frame _ _
+
+/-! ### the regenerated two nested loops of `run_validation` -/
+
+/-- the step function handed to the regenerated loops: `Tval.validateOne` with the class attribute pinned to an arbitrary value
+(by `validateOne_core` its geometry / errors / ignore flag do not depend on that value) -/
+def stepOf (O : Oracle G) (cfg : Cfg) (frame : List G) (g0 : String) (v : Validator) (geom : G) (errs : List String) (idx : Nat) : G × List String × Bool :=
+  core (validateOne O cfg frame idx v ⟨geom, errs, false, g0⟩)
+
+theorem gen_row_eq (O : Oracle G) (cfg : Cfg) (frame : List G) (g0 : String) (isLine : G → Bool) (geoms : List G) (allvs : List Validator) (idx : Nat)
+    (vs : List Validator) (s : RowSt G) :
+    (Gen.validation_pass_loop2 (stepOf O cfg frame g0) isLine geoms allvs idx vs () s.geom s.errs s.ignore).2 = core (validateRow O cfg frame idx vs s) := by
+  induction vs generalizing s with
+  | nil => simp [Gen.validation_pass_loop2, validateRow, core]
+  | cons v vs ih =>
+    rw [Gen.validation_pass_loop2, validateRow]
+    by_cases hi : s.ignore = true
+    · simp [hi, core]
+    · simp only [hi, Bool.false_eq_true, if_false]
+      have hcore : stepOf O cfg frame g0 v s.geom s.errs idx = core (validateOne O cfg frame idx v s) := by
+        unfold stepOf
+        apply validateOne_core
+        simp only [core, Prod.mk.injEq, true_and]
+        simpa using hi
+      have := ih (validateOne O cfg frame idx v s)
+      simp only [core] at hcore this ⊢
+      split
+      · rw [hcore]; exact this
+      · rw [hcore]; exact this
+
+theorem gen_rows_eq (O : Oracle G) (cfg : Cfg) (frame : List G) (g0 : String) (isLine : G → Bool) (geoms : List G) (vs : List Validator)
+    (rows : List (G × Nat)) (glob : String) (ae : List (List String)) (ag : List G) :
+    Gen.validation_pass_loop1 (stepOf O cfg frame g0) isLine geoms vs rows ae ag =
+      (ae ++ (passRows O cfg vs frame rows glob).1.map (·.2), ag ++ (passRows O cfg vs frame rows glob).1.map (·.1)) := by
+  induction rows generalizing glob ae ag with
+  | nil => simp [Gen.validation_pass_loop1, passRows]
+  | cons r rest ih =>
+    obtain ⟨g, idx⟩ := r
+    rw [Gen.validation_pass_loop1]
+    have hrow := gen_row_eq O cfg frame g0 isLine geoms vs idx vs ⟨g, [], false, glob⟩
+    simp only [core] at hrow
+    simp only [passRows]
+    generalize hr : Gen.validation_pass_loop2 (stepOf O cfg frame g0) isLine geoms vs idx vs () g [] false = r at hrow
+    obtain ⟨u, g', e', i'⟩ := r
+    simp only [Prod.mk.injEq] at hrow
+    obtain ⟨h1, h2, _⟩ := hrow
+    simp only []
+    rw [ih (validateRow O cfg frame idx vs ⟨g, [], false, glob⟩).glob]
+    simp [h1, h2]
+
+/-- **The regenerated row and validator loops of `run_validation` ARE the model's pass** (`Tval.passRows`): for every row the
+validators run in order until one sets the ignore flag (`break`), geometry / errors / flag are handed from one validator to the
+next, and the per-row errors and geometries are collected in row order -- with the regenerated `_validate` (`C09_generated_validate_step`)
+as the step. The class attribute does not occur: the result is the model's for EVERY value it may hold (`C13_global_irrelevant`). -/
+theorem C13_generated_pass (O : Oracle G) (cfg : Cfg) (frame : List G) (g0 glob : String) (isLine : G → Bool) (vs : List Validator) :
+    Gen.validation_pass (stepOf O cfg frame g0) isLine frame vs =
+      ((pass O cfg vs frame glob).1.map (·.2), (pass O cfg vs frame glob).1.map (·.1)) := by
+  unfold Gen.validation_pass pass
+  simp only []
+  rw [gen_rows_eq O cfg frame g0 isLine frame vs _ glob [] []]
+  simp
 
 /-- **What the only stateful validator does to its class attribute** (regenerated loops of
 `UnderlappingSnapValidator.validation_method`, cls.ERROR threaded as a value): a passing call leaves it untouched; a
